@@ -772,6 +772,36 @@ static void gen_multi(std::vector<Base> &out)
     }
     add_base(out, b, true, "multi AAAA x2");
   }
+  // every list-returning legacy type with 1..5 records of the type in the answer section (list building: head, tail,
+  // middle elements), shapes cycling; once more with a record of another type between the second and the third
+  {
+    static const struct {
+      unsigned type;
+      int      nshapes;
+      const char *nm;
+    } LT[] = { { 15, 3, "MX" }, { 16, 3, "TXT" }, { 2, 3, "NS" }, { 12, 2, "PTR" }, { 33, 3, "SRV" }, { 35, 2, "NAPTR" }, { 257, 2, "CAA" }, { 256, 2, "URI" }, { 1, 3, "A" }, { 28, 2, "AAAA" } };
+    for (auto &lt : LT)
+      for (int n = 1; n <= 5; n++)
+        for (int inter = 0; inter < (n >= 3 ? 2 : 1); inter++) {
+          Builder b;
+          b.header((unsigned short)(40 + n), 0x8180, 1, (unsigned short)(n + inter), 0, 0);
+          b.question(L("www.example.com"), lt.type, 1);
+          for (int i = 0; i < n; i++) {
+            if (inter && i == 2) {
+              b.name(Labels(), QNAME);
+              size_t rq = b.rr_fixed(lt.type == 13 ? 16 : 13, 1, 7);
+              write_rdata(b, 13, 0);
+              b.rr_close(rq);
+            }
+            b.name(Labels(), QNAME);
+            size_t rp = b.rr_fixed(lt.type, 1, 100 + (unsigned long)i);
+            write_rdata(b, lt.type, i % lt.nshapes);
+            b.rr_close(rp);
+          }
+          add_base(out, b, true, std::string("multi ") + lt.nm + " x" + std::to_string(n) + (inter ? " with a HINFO between" : ""));
+          out.back().closure = (n == 3 && !inter); // mutants of one representative per type; the others are run as they are
+        }
+  }
   {
     Builder b;
     b.header(17, 0x8180, 1, 1, 0, 0);
